@@ -3,8 +3,11 @@ package props
 import (
 	"bytes"
 	"fmt"
+	"os"
+	"path/filepath"
 	"sort"
 	"strings"
+	"time"
 
 	"github.com/akalin/gopar/par1"
 	"github.com/akalin/gopar/par2"
@@ -45,6 +48,7 @@ const (
 )
 
 type c14Model struct {
+	disk     bool // run Verify / Repair through the exported API on a real directory
 	name     string
 	par1     bool
 	nFiles   int
@@ -184,6 +188,29 @@ type c14Verdict struct {
 func (m *c14Model) verify(fs *envfs.FS) (c14Verdict, *core.PanicInfo, []string) {
 	before := fs.Snapshot()
 	var v c14Verdict
+	if m.disk {
+		root := c14DiskRoot()
+		defer os.RemoveAll(root)
+		materialize(root, fs.Files)
+		pi := core.Catch(func() {
+			if m.par1 {
+				res, err := par1.Verify(filepath.Join(root, m.index), par1.VerifyOptions{VerifyAllData: true})
+				if err != nil {
+					v.err = err.Error()
+					return
+				}
+				v.needed, v.poss, v.counts = res.FileCounts.RepairNeeded(), res.FileCounts.RepairPossible(), fmt.Sprintf("%+v", res)
+			} else {
+				res, err := par2.Verify(filepath.Join(root, m.index), par2.VerifyOptions{NumGoroutines: 1})
+				if err != nil {
+					v.err = err.Error()
+					return
+				}
+				v.needed, v.poss, v.counts = res.ShardCounts.RepairNeeded(), res.ShardCounts.RepairPossible(), fmt.Sprintf("%+v", res)
+			}
+		})
+		return v, pi, envfs.Diff(before, readTree(root))
+	}
 	pi := core.Catch(func() {
 		if m.par1 {
 			res, err := par1.VerifVerify(fs, m.index, par1.VerifyOptions{VerifyAllData: true})
@@ -209,6 +236,36 @@ func (m *c14Model) verify(fs *envfs.FS) (c14Verdict, *core.PanicInfo, []string) 
 }
 
 func (m *c14Model) repair(fs *envfs.FS, dc bool) (paths []string, err error, pi *core.PanicInfo, writes int) {
+	if m.disk {
+		root := c14DiskRoot()
+		defer os.RemoveAll(root)
+		materialize(root, fs.Files)
+		// make every file old, so that any (re)write is visible through its modification time
+		old := time.Now().Add(-48 * time.Hour)
+		for p := range fs.Files {
+			os.Chtimes(filepath.Join(root, p), old, old)
+		}
+		pi = core.Catch(func() {
+			if m.par1 {
+				res, e := par1.Repair(filepath.Join(root, m.index), par1.RepairOptions{DoubleCheck: dc})
+				paths, err = res.RepairedPaths, e
+			} else {
+				res, e := par2.Repair(filepath.Join(root, m.index), par2.RepairOptions{DoubleCheck: dc, NumGoroutines: 1})
+				paths, err = res.RepairedPaths, e
+			}
+		})
+		for i := range paths {
+			paths[i] = strings.TrimPrefix(paths[i], root)
+		}
+		after := readTree(root)
+		for p := range after {
+			if st, e := os.Stat(filepath.Join(root, p)); e == nil && st.ModTime().After(old.Add(time.Hour)) {
+				writes++
+			}
+		}
+		fs.Files = after
+		return
+	}
 	fs.ResetLog()
 	pi = core.Catch(func() {
 		if m.par1 {
@@ -258,8 +315,19 @@ func (m *c14Model) capacity(s c14State) int {
 	return n
 }
 
+var c14DiskSeq int
+
+func c14DiskRoot() string {
+	c14DiskSeq++
+	return filepath.Join(workerScratch(), fmt.Sprintf("c14-%d", c14DiskSeq))
+}
+
 func c14Build(name string, seed int64) *c14Model {
 	m := &c14Model{name: name, seed: seed}
+	if strings.HasSuffix(name, "-disk") {
+		m.disk = true
+		name = strings.TrimSuffix(name, "-disk")
+	}
 	all := []int{vOrig, vMissing, vFirstChanged, vLastDropped, vPrepended, vOther, vEmpty, vAppendedGarbage, vAppendedZero}
 	switch name {
 	case "p2small", "p2large", "p2huge", "p2four":
@@ -512,13 +580,16 @@ func init() {
 		ID:    "C14",
 		Level: "model_checking",
 		Rule: "explicit-state breadth-first search to closure of the directory-state graph. PAR2 small: 2 files (one slice-aligned, both ending in zero bytes) x 9 contents {original, missing, first byte changed, last byte dropped, one byte prepended, other file's content, empty, garbage byte appended, zero byte appended} x 3 recovery files {present, absent}; PAR2 large: 3 files x 9 contents x 4 recovery files; PAR1: 3 files x 5 contents x 2 volumes; thorough adds 3 files x 9 contents x 5 recovery files (16 blocks), 4 files x 9 contents x 3 recovery files, and PAR1 4 files x 5 contents x 3 volumes. " +
-			"Events: damage(f,w), restore(f), delete/restore recovery file, Verify, Repair, Repair+double-check. Every Verify/Repair transition executes the real code on a fresh filesystem built from the state (gopar keeps no state between calls). Invariants on every transition: Verify leaves the state unchanged and gives equal results for equal states; successful Repair => all original, Verify clean, a further Repair in both modes writes nothing and lists nothing; failed Repair => every file holds its previous content or its original; from every reachable state, restoring all recovery files and repairing reaches the original whenever capacity suffices. non-trivial = states in which Repair wrote files or failed",
+			"Events: damage(f,w), restore(f), delete/restore recovery file, Verify, Repair, Repair+double-check. The small PAR2 and the PAR1 model are searched twice: on the owned in-memory filesystem and through the exported API on a real directory (rewrites detected by modification time). Every Verify/Repair transition executes the real code on a fresh filesystem built from the state (gopar keeps no state between calls). Invariants on every transition: Verify leaves the state unchanged and gives equal results for equal states; successful Repair => all original, Verify clean, a further Repair in both modes writes nothing and lists nothing; failed Repair => every file holds its previous content or its original; from every reachable state, restoring all recovery files and repairing reaches the original whenever capacity suffices. non-trivial = states in which Repair wrote files or failed",
 		Assumptions: []string{"state abstraction = exact directory contents (no merging), so no hidden futures are lost", "gopar keeps no state between top-level calls (each builds its decoder from disk)"},
 		NewCase:     func() interface{} { return &c14Case{} },
 		Gen: func(g *core.Gen) {
 			g.Emit(&c14Case{Model: "p2large"})
 			g.Emit(&c14Case{Model: "p2small"})
 			g.Emit(&c14Case{Model: "p1"})
+			// the same small models with every Verify / Repair transition executed through the exported API on a real directory
+			g.Emit(&c14Case{Model: "p2small-disk"})
+			g.Emit(&c14Case{Model: "p1-disk"})
 			if g.Thorough() {
 				g.Emit(&c14Case{Model: "p2four"})
 				g.Emit(&c14Case{Model: "p2huge"})
